@@ -1,12 +1,10 @@
-import J5V.Walker.PP.GenWalk
+import J5V.Walker.PP.J5Tables
+import J5V.Walker.PP.Strings
 /-!
-# Print/parse, first slice (b): the scalar field kinds
+# Print/parse, first slice: tables of the scalar field kinds
 
-Tables of the member of `j5.schema.v1.Field` a scalar field kind selects (`kindIdx`, `kindSchema`,
-`kindSpec`), the message of the type (`typeMsg`, with `fieldMsg_eq`), and `FieldRun f`: the exact run of
-the qualifiers (`fieldQuals f`) and of the body lines (`fieldBody f [] false`) of a field inside the type's
-message — one lemma per field kind (`fieldRun_plain`, `fieldRun_integer`, `fieldRun_float`,
-`fieldRun_key`).
+`fieldOk1` (the field kinds of the first slice), the member of `j5.schema.v1.Field` a field kind selects
+(`kindIdx`, `kindSchema`, `kindSpec` with `kind_pi`, `kind_spec`), `propInfo` facts of the type schemas.
 -/
 namespace J5V.Walker
 open J5V.Bcl
@@ -61,7 +59,7 @@ def gField : Str × List Nat := (b!"j5.schema.v1.Field.type", [])
 theorem kind_pi {f : CField} (h : fieldOk1 f = true) :
     propInfo j5Env sField (fieldKind f) = some (kindIdx f, some gField, .container (kindSchema f)) := by
   rw [j5Env_nf]
-  cases f <;> first | (cases h; done) | decide +kernel
+  cases f <;> first | (cases h; done) | (dsimp only [fieldKind, kindIdx, kindSchema]; decide +kernel)
 
 theorem kind_spec {f : CField} (h : fieldOk1 f = true) (c : Addr) :
     specOf j5Env ⟨c, .msg (kindSchema f)⟩ = .ok (kindSpec f) := by
@@ -73,12 +71,15 @@ theorem kind_spec {f : CField} (h : fieldOk1 f = true) (c : Addr) :
     | exact specOf_AnyField0 | exact specOf_IntegerField0 | exact specOf_FloatField0
     | exact specOf_KeyField0
 
-theorem kind_lt (f : CField) : kindIdx f < 15 := by cases f <;> decide
+theorem kind_lt (f : CField) : kindIdx f < 15 := by cases f <;> (dsimp only [kindIdx]; decide)
 
-theorem kind_ascii (f : CField) : isAscii (fieldKind f) = true := by cases f <;> decide
+theorem kind_ascii (f : CField) : isAscii (fieldKind f) = true := by
+  cases f <;> (dsimp only [fieldKind, wObject, wOneof, wEnum]; decide)
 
-theorem kindSpec_name {f : CField} : (kindSpec f).name = none := by cases f <;> decide +kernel
-theorem kindSpec_typeSelect {f : CField} : (kindSpec f).typeSelect = none := by cases f <;> decide +kernel
+theorem kindSpec_name {f : CField} : (kindSpec f).name = none := by
+  cases f <;> (dsimp only [kindSpec]; decide +kernel)
+theorem kindSpec_typeSelect {f : CField} : (kindSpec f).typeSelect = none := by
+  cases f <;> (dsimp only [kindSpec]; decide +kernel)
 
 /-! ## Table facts of the type schemas -/
 
@@ -104,48 +105,5 @@ theorem pi_KeyFormat_id62 : propInfo j5Env sKeyFormat b!"id62" =
     some (3, some gKeyFormat, .container sKeyFormatID62) := by rw [j5Env_nf]; decide +kernel
 theorem pi_KeyFormatCustom_pattern : propInfo j5Env sKeyFormatCustom b!"pattern" =
     some (0, none, .scalar (.scalar .string) false) := by rw [j5Env_nf]; decide +kernel
-
-/-! ## The message of the type -/
-
-/-- `mkMsg` over a schema given as a literal -/
-theorem mkMsg_of {env : Env} {sn : Str} {s : Schema} (h : env.schemaOf sn = s) (vals : List (Str × Node)) :
-    mkMsg env sn vals =
-      .msg (s.props.map fun p => (lookupVal p.name vals).isSome)
-        (s.props.map fun p => (lookupVal p.name vals).getD .absent) := by
-  unfold mkMsg; rw [h]
-
-/-- a oneof message with member `k` selected -/
-def oneofMsg (n k : Nat) (v : Node) : Node :=
-  .msg ((List.replicate n false).set k true) ((List.replicate n Node.absent).set k v)
-
-/-- the key format message inside `KeyField.format` -/
-def keyFmtNode : J5V.Compile.KeyFmt → Node
-  | .none => .absent
-  | .informal => oneofMsg 4 0 (.msg [] [])
-  | .custom p => oneofMsg 4 1 (.msg [true] [sStr p])
-  | .uuid => oneofMsg 4 2 (.msg [] [])
-  | .id62 => oneofMsg 4 3 (.msg [] [])
-
-/-- the message of the type of a field of the first slice (the member of `j5.schema.v1.Field`) -/
-def typeMsg : CField → Node
-  | .string .. => .msg [false, false, false, false] [.absent, .absent, .absent, .absent]
-  | .bool .. => .msg [false, false, false] [.absent, .absent, .absent]
-  | .bytes .. => .msg [false, false] [.absent, .absent]
-  | .date .. => .msg [false, false, false] [.absent, .absent, .absent]
-  | .decimal .. => .msg [false, false, false] [.absent, .absent, .absent]
-  | .timestamp .. => .msg [false, false, false] [.absent, .absent, .absent]
-  | .any => .msg [false, false, false] [.absent, .absent, .absent]
-  | .integer fmt _ _ => .msg [true, false, false, false] [sEnum (intFmtNumber fmt), .absent, .absent, .absent]
-  | .float fmt _ _ => .msg [true, false, false, false] [sEnum (floatFmtNumber fmt), .absent, .absent, .absent]
-  | .key fmt _ _ _ =>
-    .msg [false, fmt != .none, false, false, false] [.absent, keyFmtNode fmt, .absent, .absent, .absent]
-  | _ => .absent
-
-theorem fieldMsg_eq {f : CField} (h : fieldOk1 f = true) :
-    fieldMsg j5Env f = oneofMsg 15 (kindIdx f) (typeMsg f) := by
-  cases f <;> first
-    | (cases h; done)
-    | skip
-  all_goals sorry
 
 end J5V.Walker
